@@ -25,9 +25,10 @@ type HCFunc struct {
 
 type HCLuaFn struct {
 	File, Table, LuaName, CFunc string
-	Callbacks                   []string // exported Go callbacks reachable from CFunc
-	SQLStep                     bool     // reaches sqlite3_step (executes SQL)
-	GuardsBeforeStep            []string // guard calls in CFunc's own body that lexically precede the first (transitive) SQL step
+	Callbacks                   []string  // exported Go callbacks reachable from CFunc
+	SQLStep                     bool      // reaches sqlite3_step (executes SQL)
+	GuardsBeforeStep            []string  // guard calls in CFunc's own body that lexically precede the first (transitive) SQL step
+	Guards                      []HCGuard // the same guard calls with the comparison their `if` makes and what the guarded statement does
 }
 
 type HCFacts struct {
@@ -39,6 +40,10 @@ type HCFacts struct {
 }
 
 var hcGuards = map[string]bool{"luaCheckView": true, "sqlcheck_is_readonly_sql": true, "sqlite3_stmt_readonly": true}
+
+// C calls that execute SQL / change database content
+var hcSQLExec = map[string]bool{"sqlite3_step": true, "sqlite3_exec": true, "sqlite3_get_table": true, "sqlite3_blob_write": true,
+	"sqlite3_backup_step": true, "sqlite3_deserialize": true, "sqlite3_load_extension": true}
 var hcKeywords = map[string]bool{"if": true, "while": true, "for": true, "switch": true, "return": true, "sizeof": true, "defined": true}
 
 // hcBlank replaces comments (and, if strs, string/char literals) by spaces, keeping offsets and newlines.
@@ -216,7 +221,7 @@ func HScanC(dir string, prog *HProgram) (*HCFacts, error) {
 		seen[f] = true
 		step := false
 		for _, c := range f.Calls {
-			if c == "sqlite3_step" || c == "sqlite3_exec" {
+			if hcSQLExec[c] {
 				step = true
 			}
 			if exported[c] {
@@ -245,7 +250,7 @@ func HScanC(dir string, prog *HProgram) (*HCFacts, error) {
 				first := len(f.Body)
 				for _, m := range hcCallRe.FindAllStringSubmatchIndex(f.Body, -1) {
 					c := f.Body[m[2]:m[3]]
-					isStep := c == "sqlite3_step" || c == "sqlite3_exec"
+					isStep := hcSQLExec[c]
 					if g := lookup(f.File, c); g != nil && !isStep {
 						isStep = reach(g, map[*HCFunc]bool{}, map[string]bool{})
 					}
@@ -258,6 +263,7 @@ func HScanC(dir string, prog *HProgram) (*HCFacts, error) {
 					c := f.Body[m[2]:m[3]]
 					if hcGuards[c] && m[0] < first {
 						lf.GuardsBeforeStep = append(lf.GuardsBeforeStep, c)
+						lf.Guards = append(lf.Guards, hcGuardAt(f.Body, m[2], c))
 					}
 				}
 			}
